@@ -861,7 +861,9 @@ class ContactlessFrontend(object):
                         else:
                             info = "unknown technology type in %r"
                             raise UnsupportedTargetError(info % target.brty)
-                    except UnsupportedTargetError as error:
+                    except (UnsupportedTargetError, ValueError) as error:
+                        # a target that is not supported or has invalid
+                        # attributes is only an error if it is the only one
                         if len(targets) == 1:
                             raise error
                         else:
